@@ -13,7 +13,7 @@ namespace c11
 {
   enum Expect { EX_ANY = 0, EX_REJECT = 1, EX_SAME = 2 };  // EX_SAME: must be accepted and give the seed's output
 
-  struct AttrSpan { std::string name, value; size_t vbeg = 0, vend = 0; }; // [vbeg,vend) = value without quotes
+  struct AttrSpan { std::string name, value; size_t vbeg = 0, vend = 0, nbeg = 0; }; // [vbeg,vend) = value without quotes; [nbeg, vend+1) = name="value"
 
   struct Line
   {
@@ -102,6 +102,7 @@ namespace c11
                 as.name = (ka == std::string::npos) ? std::string() : k.substr(ka, kb - ka + 1);
                 as.value = in.substr(q1 + 1, q2 - q1 - 1);
                 as.vbeg = off + q1 + 1; as.vend = off + q2;
+                as.nbeg = off + i + (ka == std::string::npos ? 0 : ka);
                 L.attrs.push_back(as);
                 i = q2 + 1;
               }
